@@ -576,4 +576,72 @@ theorem NoReject.step {m : Int} (hm : m < 0) {s : Shared} {ls : List Local} (h :
   · exact hall x hx
   · subst hx; exact key.2
 
+/-! ### limit ≥ number of callers: nobody is refused -/
+
+/-- room for everybody: the limit is at least the number of callers -/
+def Roomy (m : Int) (n : Nat) (s : Shared) (ls : List Local) : Prop :=
+  GInv m s ls ∧ ls.length = n ∧ (∀ l ∈ ls, l ≠ .rejecting ∧ l ≠ .finished false) ∧
+  (∀ obs, Local.incd obs ∈ ls → obs ≤ (n : Int))
+
+theorem Roomy.init (m : Int) (n : Nat) : Roomy m n { limit := m } (List.replicate n .idle) := by
+  refine ⟨GInv.init m n, by simp, ?_, ?_⟩
+  · intro l hl
+    have := List.eq_of_mem_replicate hl
+    subst this
+    exact ⟨by simp, by simp⟩
+  · intro obs h
+    have := List.eq_of_mem_replicate h
+    cases this
+
+theorem Roomy.step {m : Int} {n : Nat} (hmn : (n : Int) ≤ m) {s : Shared} {ls : List Local} (h : Roomy m n s ls)
+    {i : Nat} {l l' : Local} {s' : Shared} (hi : ls[i]? = some l) (hs : Gauge.step i s l = some (s', l')) :
+    Roomy m n s' (ls.set i l') := by
+  obtain ⟨hG, hlen, hall, hobs⟩ := h
+  have hmem : l ∈ ls := List.mem_of_getElem? hi
+  have key : l' ≠ .rejecting ∧ l' ≠ .finished false ∧ (∀ obs, l' = .incd obs → obs ≤ (n : Int)) := by
+    cases l with
+    | idle =>
+      simp only [Gauge.step, Option.some.injEq, Prod.mk.injEq] at hs
+      obtain ⟨rfl, rfl⟩ := hs
+      refine ⟨by simp, by simp, ?_⟩
+      intro obs ho
+      have ho' : s.gauge + 1 = obs := by simpa using ho
+      have h1 := hG.gauge
+      have h2 := hG.len
+      have h3 : ls.countP inRegion ≤ ls.length := List.countP_le_length
+      have h4 : ls.countP inRegion ≠ ls.length := by
+        intro heq
+        have := (List.countP_eq_length.mp heq) _ hmem
+        simp [inRegion] at this
+      omega
+    | incd obs =>
+      simp only [Gauge.step] at hs
+      have hle := hobs obs hmem
+      have hlim := hG.lim
+      split at hs
+      · rename_i hc
+        omega
+      · simp only [Option.some.injEq, Prod.mk.injEq] at hs
+        obtain ⟨rfl, rfl⟩ := hs
+        exact ⟨by simp, by simp, by simp⟩
+    | running =>
+      simp only [Gauge.step, Option.some.injEq, Prod.mk.injEq] at hs
+      obtain ⟨rfl, rfl⟩ := hs
+      exact ⟨by simp, by simp, by simp⟩
+    | rejecting => exact ((hall _ hmem).1 rfl).elim
+    | leaving =>
+      simp only [Gauge.step, Option.some.injEq, Prod.mk.injEq] at hs
+      obtain ⟨rfl, rfl⟩ := hs
+      exact ⟨by simp, by simp, by simp⟩
+    | finished b => simp [Gauge.step] at hs
+  refine ⟨hG.step hi hs, by rw [List.length_set]; exact hlen, ?_, ?_⟩
+  · intro x hx
+    rcases List.mem_or_eq_of_mem_set hx with hx | hx
+    · exact hall x hx
+    · subst hx; exact ⟨key.1, key.2.1⟩
+  · intro obs hx
+    rcases List.mem_or_eq_of_mem_set hx with hx | hx
+    · exact hobs obs hx
+    · exact key.2.2 obs hx.symm
+
 end CM.Conc
